@@ -12,6 +12,7 @@ Record rcase14 := mk_rcase14 {
   r_cdata_break : bool;           (* some rendered text contains "]]>" *)
   r_report : list rf }.
 
+Definition is_none_N (o : option N) : bool := match o with None => true | Some _ => false end.
 Definition has_path_of (c : rcase14) (f : N) : bool := negb (existsb (N.eqb f) (r_pathless c)).
 Definition normalized_stream (c : rcase14) : list ev := map snd (concat (nrun (r_events c))).
 
@@ -22,6 +23,15 @@ Definition model_report (c : rcase14) : list rf :=
   | 1 => json_doc (has_path_of c) es
   | 2 => junit_doc es
   | _ => basic_lines es
+  end.
+
+(* the testcases of an `Errors` suite are failures without a rule (second review, L7: `c14_junit_ok` compares only their ids) *)
+Fixpoint junit_errors_ok (in_err : bool) (rfs : list rf) : bool :=
+  match rfs with
+  | [] => true
+  | RSuite e _ :: t => junit_errors_ok e t
+  | RCase r _ st :: t => (negb in_err || (is_none_N r && (st =? 1))) && junit_errors_ok in_err t
+  | _ :: t => junit_errors_ok in_err t
   end.
 
 Definition c14_ok (c : rcase14) : bool :=
@@ -36,6 +46,7 @@ Definition c14_ok (c : rcase14) : bool :=
      failed, else skipped if a step was skipped, else success), whenever the attempts of the stream are canonical *)
   | 2 => c14_junit_ok es (r_report c) && c14_junit_attr_ok es (r_report c)
          && (negb (attempts_canonical es) || c14_junit_ok3 es (r_report c))
+         && junit_errors_ok false (r_report c)
   (* terminal, further: every `Feature:` / `Rule:` line is a fact of its own (none invented, none repeated, a rule under its
      own feature: multiset against the raw stream), and the whole listing — headers, scenario headers, result lines, parser
      errors — stands in the order of the stream the writer receives, i.e. of what Normalize forwards (ReportersSpec4) *)
